@@ -115,8 +115,8 @@ def inline_helpers(pkg, fn, keep=(), max_rounds=4):
             cn = ast.unparse(st.value.func)
             if cn in pkg.classes:
                 local_classes.setdefault(st.targets[0].id, set()).add(cn)
-    for st in fn.body:
-        if isinstance(st, ast.FunctionDef):
+    for st in ast.walk(fn):
+        if isinstance(st, ast.FunctionDef) and st is not fn:
             nested_defs[st.name] = st
 
     def callee_of(call):
